@@ -1,5 +1,6 @@
 """Runtime side of C09: the real likelihood classes on enumerated special inputs vs the documented
 formulas computed independently (math.fsum)."""
+import os
 import math, random, itertools
 import numpy as np
 from hcommon import io_main
@@ -152,6 +153,48 @@ def main(p):
             elif not (r1 == r2 or (r1 != r1 and r2 != r2)):
                 fails.append({"cls": cls, "case": "identity model", "x": x, "y": y, "yerr": s,
                               "error": "%s.negloglike returned %r and then %r for the same model and parameters on the same object" % (cls, r1, r2)})
+    # the real constructors: the data vectors are the columns of the data file, row by row (abscissae in no particular order, unequal errors),
+    # and the likelihood of a model is the documented formula over THOSE rows
+    import tempfile, shutil, esr.fitting.likelihood as LM
+    tmp = tempfile.mkdtemp(prefix="esrverif_c09_")
+    try:
+        for cls, ncol in (("GaussLikelihood", 3), ("PoissonLikelihood", 2), ("MSE", 3)):
+            for n in (2, 5, 11):
+                x = [round(0.5 + rng.random() * 3, 6) for _ in range(n)]
+                rng.shuffle(x)
+                y = [float(rng.randint(1, 9)) if cls == "PoissonLikelihood" else round(0.2 + rng.random() * 5, 6) for _ in range(n)]
+                s_ = [round(0.1 + rng.random(), 6) for _ in range(n)]
+                cols = [x, y, s_][:ncol]
+                fn = "data_%s_%d.txt" % (cls, n)
+                np.savetxt(os.path.join(tmp, fn), np.array(cols).T)
+                cases += 1
+                try:
+                    o = getattr(LM, cls)(fn, "verif_c09_%s_%d" % (cls, n), data_dir=tmp)
+                except Exception as e:
+                    fails.append({"cls": cls, "case": "constructor", "error": "%s(%r) raised %s: %s" % (cls, fn, type(e).__name__, e)})
+                    continue
+                distinct += 1
+                got = [np.asarray(o.xvar, float), np.asarray(o.yvar, float)] + ([np.asarray(o.yerr, float)] if cls == "GaussLikelihood" else [])
+                want = [np.array(x), np.array(y)] + ([np.array(s_)] if cls == "GaussLikelihood" else [])
+                names = ["xvar", "yvar", "yerr"]
+                bad = [names[j] for j in range(len(got)) if got[j].shape != want[j].shape or not np.array_equal(got[j], want[j])]
+                if bad:
+                    # the order of the rows does not matter as long as the columns stay together
+                    rows_got = sorted(zip(*[g.tolist() for g in got])) if all(g.shape == got[0].shape for g in got) else None
+                    rows_want = sorted(zip(*[w.tolist() for w in want]))
+                    if rows_got != rows_want:
+                        fails.append({"cls": cls, "case": "constructor", "x": x, "y": y, "yerr": s_,
+                                      "error": "%s built from a file with rows (x, y%s) = %s holds xvar=%s yvar=%s%s: the rows of the file are torn apart" % (
+                                          cls, ", yerr" if cls == "GaussLikelihood" else "", [tuple(r) for r in zip(*want)][:4], got[0].tolist()[:4], got[1].tolist()[:4],
+                                          (" yerr=%s" % got[2].tolist()[:4]) if len(got) > 2 else "")})
+                        continue
+                f = [0.3 + 0.7 * v for v in np.asarray(o.xvar, float)]
+                r = o.negloglike([1.0], lambda xx, *a: 0.3 + 0.7 * np.asarray(xx))
+                want_nll = formula(cls, f, list(np.asarray(o.yvar, float)), list(np.asarray(getattr(o, "yerr", np.ones(n)), float)) if cls == "GaussLikelihood" else s_)
+                if not abs(float(np.real(r)) - want_nll) <= 1e-9 * max(1.0, abs(want_nll)):
+                    fails.append({"cls": cls, "case": "constructor", "error": "%s built from %s: negloglike of 0.3 + 0.7 x is %r, documented formula over the file's rows gives %r" % (cls, fn, r, want_nll)})
+    finally:
+        shutil.rmtree(tmp, ignore_errors=True)
     return {"cases": cases, "distinct": distinct, "failures": fails[:5]}
 
 
